@@ -27,7 +27,7 @@ type Program struct {
 	allFuncs map[*ssa.Function]bool
 
 	specFiles []*SpecFile
-	specs     map[string]*SpecFunc // by name (global namespace; pkg-qualified lookups fall back)
+	specs     map[string][]*SpecFunc // by name; lookups prefer the current package, else a unique definition
 	axioms    []*Axiom
 	lemmas    []*Lemma
 	tables    []*TableSpec
@@ -35,6 +35,7 @@ type Program struct {
 	externals map[string]*FuncContract // key: pkgpath.Name / pkgpath.(Recv).Name of dependency
 	ifaces    map[string]*FuncContract // key: pkgpath.Type.Method
 	contractList []*FuncContract
+	unrefined    []string
 }
 
 func loadProgram(repo string, patterns []string) (*Program, error) {
@@ -63,7 +64,7 @@ func loadProgram(repo string, patterns []string) (*Program, error) {
 	prog.Build()
 	P := &Program{repo: repo, fset: prog.Fset, pkgs: pkgs, prog: prog,
 		byPath: map[string]*packages.Package{}, ssaPkgs: map[string]*ssa.Package{},
-		specs: map[string]*SpecFunc{}, contracts: map[string]*FuncContract{},
+		specs: map[string][]*SpecFunc{}, contracts: map[string]*FuncContract{},
 		externals: map[string]*FuncContract{}, ifaces: map[string]*FuncContract{}}
 	packages.Visit(pkgs, nil, func(p *packages.Package) {
 		P.byPath[p.PkgPath] = p
@@ -101,10 +102,12 @@ func loadProgram(repo string, patterns []string) (*Program, error) {
 	// global (shared) spec files kept in /verif/contracts/*.spec: pure spec functions, axioms, externals
 	for _, sf := range P.specFiles {
 		for _, s := range sf.Specs {
-			if old, dup := P.specs[s.Name]; dup {
-				return nil, fmt.Errorf("%s:%d: spec %s already defined at %s:%d", s.File, s.Line, s.Name, old.File, old.Line)
+			for _, old := range P.specs[s.Name] {
+				if old.Pkg == s.Pkg {
+					return nil, fmt.Errorf("%s:%d: spec %s already defined at %s:%d", s.File, s.Line, s.Name, old.File, old.Line)
+				}
 			}
-			P.specs[s.Name] = s
+			P.specs[s.Name] = append(P.specs[s.Name], s)
 		}
 		P.axioms = append(P.axioms, sf.Axioms...)
 		P.lemmas = append(P.lemmas, sf.Lemmas...)
@@ -135,6 +138,23 @@ func loadProgram(repo string, patterns []string) (*Program, error) {
 		}
 	}
 	return P, nil
+}
+
+// lookupSpec resolves a spec function name from within package pkg.
+func (P *Program) lookupSpec(name, pkg string) *SpecFunc {
+	cands := P.specs[name]
+	for _, c := range cands {
+		if c.Pkg == pkg {
+			return c
+		}
+	}
+	if len(cands) == 1 {
+		return cands[0]
+	}
+	if len(cands) > 1 {
+		specFail("spec %s is defined in several packages; none of them is %s", name, pkg)
+	}
+	return nil
 }
 
 func (P *Program) addSpecText(pkg, file, src string) error {
